@@ -113,7 +113,15 @@ func c08check(w *Worker, pool *c08pool, r *Rng, idx int64) (produced string) {
 		}
 		nt("identity" + d.String())
 		produced = got
-	case 2: // Sprint(Sprint(a...)) == Sprint(a...)
+	case 2: // Sprint(Sprint(a...)) == Sprint(a...); the SafeFormat methods of the redactable types called directly; StringWithoutMarkers
+		direct := string(redact.Sprintfn(func(p redact.SafePrinter) { redact.RedactableString(rs).SafeFormat(p, 'v') }))
+		directB := string(redact.Sprint(fnFormatter(func(p redact.SafePrinter) { redact.RedactableBytes(rs).SafeFormat(p, 'x') })))
+		if direct != rs || directB != rs {
+			viol("safeformat-direct", "RedactableString.SafeFormat gives "+q(direct)+", RedactableBytes.SafeFormat gives "+q(directB), nil)
+		}
+		if got, want := redact.StringWithoutMarkers(fnFormatter(func(p redact.SafePrinter) { p.Print(redact.RedactableString(rs)) })), redact.RedactableString(rs).StripMarkers(); got != want {
+			viol("string-without-markers", "StringWithoutMarkers gives "+q(got)+" want "+q(want), nil)
+		}
 		once := string(redact.Sprint(redact.RedactableString(rs)))
 		twice := string(redact.Sprint(redact.RedactableString(once)))
 		w.Eval(2)
